@@ -250,6 +250,34 @@ def gen_history(rng, length, unsafe=False):
                 rng.shuffle(arrs)
                 n = len(arrs)
                 resume = rng.random() < 0.9
+            if done and rng.random() < 0.30 and len(hist) + 2 <= length + 2:
+                # compute a subset earlier, derive a sibling from a shared intermediate, compute with resume
+                X = rng.choice(done)
+                A = rng.choice(ancestors(X))
+                if pool[A]["depth"] < 7:
+                    others = [L for L in handles(lambda p: p["chunks"] == pool[A]["chunks"] and p["depth"] < 7)]
+                    ssrcs = [A] + ([rng.choice(others)] if others and rng.random() < 0.3 else [])
+                    rng.shuffle(ssrcs)
+                    S = new_label()
+                    hist.append({"op": "map", "fn": rng.randint(1, 9), "srcs": ssrcs, "id": S})
+                    for q in ssrcs:
+                        pool[q]["deps"] += 1
+                    pool[S] = dict(lazy=True, chunks=pool[A]["chunks"], handle=True, deps=0, ret=0,
+                                   depth=1 + max(pool[q]["depth"] for q in ssrcs), target=None, srcs=list(ssrcs))
+                    arrs = [S]
+                    if pool[X]["chunks"] == pool[S]["chunks"] and pool[X]["depth"] < 7 and rng.random() < 0.35:
+                        D = new_label()     # a combination of the old and the new branch
+                        hist.append({"op": "map", "fn": rng.randint(1, 9), "srcs": [X, S], "id": D})
+                        pool[X]["deps"] += 1
+                        pool[S]["deps"] += 1
+                        pool[D] = dict(lazy=True, chunks=pool[S]["chunks"], handle=True, deps=0, ret=0,
+                                       depth=1 + max(pool[X]["depth"], pool[S]["depth"]), target=None, srcs=[X, S])
+                        arrs = [D] if rng.random() < 0.6 else [D, S]
+                    elif rng.random() < 0.75:
+                        arrs.append(X)
+                    rng.shuffle(arrs)
+                    n = len(arrs)
+                    resume = rng.random() < 0.9
             st = {"op": "compute", "arrs": arrs, "opt": rng.random() < 0.7, "resume": resume,
                   "api": "method" if n == 1 and rng.random() < 0.6 else "function",
                   "executor": rng.choice([None, None, "single-threaded", "threads"])}
@@ -361,6 +389,35 @@ RESUME_CORPUS = [
     [{"op": "input", "kind": "asarray", "k": 0, "id": 1}, {"op": "map", "fn": 1, "srcs": [1], "id": 2},
      {"op": "rechunk", "src": 2, "id": 3}, {"op": "map", "fn": 2, "srcs": [3], "id": 4},
      _C([4]), _C([2, 4], resume=True), _C([3, 2, 4], resume=True)],
+]
+
+def _M(fn, srcs, id):
+    return {"op": "map", "fn": fn, "srcs": list(srcs), "id": id}
+
+
+# Resume on a *branching* graph: one branch is computed first with optimize on (the shared intermediate is fused
+# away and never stored), then a sibling is derived from the shared intermediate and both branches / a combination
+# are computed with resume=True; optimize on and off, single-threaded and threads.  1 = x, 2 = a = F(x), 3 = b = F(a),
+# 4 = c = F(a) (sibling), 5 = d = F(b, c).
+BRANCH_CORPUS = [
+    _chain("asarray", [1, 2], [_C([3]), _M(3, [2], 4), _C([3, 4], resume=True, executor=ex, opt=opt)])
+    for ex in ("single-threaded", "threads") for opt in (True, False)
+] + [
+    _chain("asarray", [1, 2], [_C([3]), _M(3, [2], 4), _C([4, 3], resume=True), _C([4], opt=False)]),
+    _chain("asarray", [1, 2], [_C([3]), _M(3, [2], 4), _C([4], resume=True, opt=False), _C([4, 2, 3], resume=True)]),
+    _chain("asarray", [1, 2], [_C([3]), _M(3, [2], 4), _M(4, [3, 4], 5), _C([5], opt=False, resume=True, executor="threads")]),
+    _chain("asarray", [1, 2], [_C([3]), _M(3, [2], 4), _M(4, [3, 4], 5), _C([5], opt=True, resume=True, executor="single-threaded")]),
+    _chain("asarray", [1, 2], [_C([3]), _M(3, [2], 4), _C([3, 4], resume=True), _M(4, [3, 4], 5),
+                               _C([5], opt=False, resume=True), _C([5, 4, 3], resume=True, executor="threads")]),
+    _chain("zarr", [1, 2], [_C([3]), _M(3, [2, 1], 4), _C([3, 4], resume=True, opt=False, executor="threads")]),
+    _chain("from_array", [1, 2], [_C([3]), _M(3, [2, 2], 4), _M(5, [4], 5), _C([3, 5], resume=True),
+                                  _C([5, 4], resume=True, opt=False)]),
+    # deeper shared chain: 2 -> 3 -> 4 computed; sibling from 2 and from 3
+    _chain("asarray", [1, 2, 3], [_C([4]), _M(5, [2], 5), _M(6, [3], 6), _C([4, 5, 6], resume=True),
+                                  _C([6, 5], resume=True, opt=False, executor="threads")]),
+    # the first branch materialised by an eager store instead of compute
+    _chain("asarray", [1, 2], [{"op": "store", "pairs": [[3, 0]], "eager": True, "opt": True, "api": "to_zarr", "ids": [None]},
+                               _M(3, [2], 4), _C([3, 4], resume=True), _C([4, 3], resume=True, opt=False)]),
 ]
 
 WITNESS_LATE = [
